@@ -265,6 +265,46 @@ impl Spec {
             }
         }
     }
+    /// f -> s.f (all terminals scaled; decisions untouched)
+    pub fn scale_output(&mut self, sc: f64) {
+        match self {
+            Spec::T(a) => {
+                for r in a.mat.iter_mut() {
+                    for v in r.iter_mut() {
+                        *v *= sc;
+                    }
+                }
+                for v in a.bias.iter_mut() {
+                    *v *= sc;
+                }
+            }
+            Spec::D(_, kids) => {
+                for k in kids.iter_mut().flatten() {
+                    k.scale_output(sc);
+                }
+            }
+        }
+    }
+    /// g -> g(./s): decisions A y <= s.c, terminals (M/s) y + c, so that g'(s.y) = g(y)
+    pub fn scale_input(&mut self, sc: f64) {
+        match self {
+            Spec::T(a) => {
+                for r in a.mat.iter_mut() {
+                    for v in r.iter_mut() {
+                        *v /= sc;
+                    }
+                }
+            }
+            Spec::D(a, kids) => {
+                for v in a.bias.iter_mut() {
+                    *v *= sc;
+                }
+                for k in kids.iter_mut().flatten() {
+                    k.scale_input(sc);
+                }
+            }
+        }
+    }
     pub fn count(&self) -> usize {
         match self {
             Spec::T(_) => 1,
